@@ -327,7 +327,7 @@ fn run(case: &Case) -> Result<Outcome, Failure> {
             ChildEnd::Exited(0) => Ok(classify(case, true)),
             ChildEnd::Exited(2) => fail!("region:content-differs", "{}", String::from_utf8_lossy(&buf)),
             ChildEnd::Exited(1) => fail!("region:receive-failed", "forked receiver: {}", String::from_utf8_lossy(&buf)),
-            ChildEnd::TimedOut => fail!("region:receive-hangs", "the forked receiver did not finish"),
+            ChildEnd::TimedOut => Err(sandbox::child_timeout_failure("region:receive-hangs", "the forked receiver did not finish", &buf)),
             other => fail!("region:receiver-died", "the forked receiver ended {:?}: {}", other, String::from_utf8_lossy(&buf)),
         };
     }
